@@ -538,8 +538,26 @@ def apply_post_ops(model, ops):
     return model, done
 
 
+def perturb_initial(model, spec):
+    """'Parameters at initialisation and perturbed': add seeded uniform noise to every trainable
+    raw leaf of the freshly built model (host-side numpy; deterministic)."""
+    import equinox as eqx
+    import jax
+    import jax.numpy as jnp
+    from flowjax.wrappers import NonTrainable
+
+    r = np.random.default_rng(int(spec["seed"]) % (2**32))
+    s = float(spec["scale"])
+    params, static = eqx.partition(model, eqx.is_inexact_array, is_leaf=lambda n: isinstance(n, NonTrainable))
+    leaves, td = jax.tree_util.tree_flatten(params)
+    new = [jnp.asarray(np.asarray(a) + r.uniform(-s, s, size=np.shape(a)).astype(np.asarray(a).dtype)) for a in leaves]
+    return eqx.combine(jax.tree_util.tree_unflatten(td, new), static)
+
+
 def build_world_model(world):
     model_plain = _share_static(world["model"], zoo.build(world["model"]))
+    if world.get("init_perturb"):
+        model_plain = perturb_initial(model_plain, world["init_perturb"])
     model0, applied = apply_freeze(model_plain, world.get("freeze", []), keep_some=world.get("freeze_keep_some", False),
                                    hint=world.get("freeze_path_hint"))
     if world.get("post_ops"):
